@@ -577,6 +577,9 @@ let check_tokens (cfg : econfig) (ops : eop list) (tr : tok list) : unit =
            | _ -> ()) stores;
        if List.length stores > 1 then bad "C09" "Trigger wrote %d records" (List.length stores);
        if api_ok && List.length stores <> 1 then bad "C09" "Trigger succeeded without writing exactly one record";
+       (* "succeeds only when ... it then persists exactly one new run": a Store that failed before taking effect persisted nothing *)
+       if api_ok && List.length (List.filter (function TStore (_, _, a) -> eff a | _ -> false) stores) <> 1 then
+         bad "C09" "Trigger returned success although its Store call failed: no run was persisted";
        List.iter (function
          | TStore (prev, r, _) ->
            if prev <> None then bad "C09" "Trigger overwrote an existing run";
